@@ -252,7 +252,7 @@ fn judge_request(rep: &Reporter, prefix: &str, list: &[&'static str], entries: &
 
 pub fn check(rep: &Reporter) {
 	rep.set_rule(&format!(
-		"allow-lists = all lists of 1 or 2 entries (both orders; thorough: also every 3-entry combination) over {} patterns (those HostFilterLayer::new accepts) × Host header strings = {} schemes × {} hosts × {} userinfo forms × {} port forms, plus control/non-ASCII values × header multiplicity {{1, 0, 2}} × request-target {{origin form, absolute same authority, absolute other authority, absolute with explicit default port}}. plus allow-lists given as SocketAddr values (IPv4 and IPv6, 1–2 entries) × 14 Host values; plus an SRV-TCP leg: the layer as HTTP middleware of Server::start, single-entry lists × scheme-less Host values × request-target forms as raw HTTP/1.1 over loopback. Oracle: independent RFC-3986 authority split + label/port matcher written from the statement; a case is non-trivial when the layer was actually invoked (header constructible); distinct by (list, header, multiplicity, target).",
+		"allow-lists = the empty list and all lists of 1 or 2 entries (both orders; thorough: also every 3-entry combination) over {} patterns (those HostFilterLayer::new accepts) × Host header strings = {} schemes × {} hosts × {} userinfo forms × {} port forms, plus control/non-ASCII values × header multiplicity {{1, 0, 2}} × request-target {{origin form, absolute same authority, absolute other authority, absolute with explicit default port}}. plus allow-lists given as SocketAddr values (IPv4 and IPv6, 1–2 entries) × 14 Host values; plus an SRV-TCP leg: the layer as HTTP middleware of Server::start, the empty and the single-entry lists × scheme-less Host values × request-target forms as raw HTTP/1.1 over loopback. Oracle: independent RFC-3986 authority split + label/port matcher written from the statement; a case is non-trivial when the layer was actually invoked (header constructible); distinct by (list, header, multiplicity, target).",
 		PATTERNS.len(),
 		SCHEMES.len(),
 		HOSTS.len(),
@@ -261,7 +261,8 @@ pub fn check(rep: &Reporter) {
 	));
 	rep.assume("soundness (admitted ⇒ some entry matches some candidate authority) is demanded on every case; completeness only for single-entry lists and plain authorities without userinfo, as the statement says");
 	// lists
-	let mut lists: Vec<Vec<&'static str>> = Vec::new();
+	// the empty list is a configuration too: filtering is enabled and nothing is allowed
+	let mut lists: Vec<Vec<&'static str>> = vec![vec![]];
 	for i in 0..PATTERNS.len() {
 		lists.push(vec![PATTERNS[i]]);
 	}
@@ -410,7 +411,7 @@ pub fn check(rep: &Reporter) {
 	//      HTTP/1.1 over loopback so that hyper supplies the Host header and the request-target. Single-entry lists ×
 	//      scheme-less Host values × request-target forms; the RPC call in the body tells whether the service was reached.
 	{
-		let singles: Vec<usize> = (0..lists.len()).filter(|li| lists[*li].len() == 1 && built[*li].is_some()).collect();
+		let singles: Vec<usize> = (0..lists.len()).filter(|li| lists[*li].len() <= 1 && built[*li].is_some()).collect();
 		let hdrs: Vec<&Vec<u8>> = headers.iter().filter(|h| !h.windows(3).any(|w| w == b"://") && !h.iter().any(|b| *b == b'\r' || *b == b'\n' || *b == 0)).collect();
 		let uris: Vec<UriKind> = if rep.tier.thorough() { URIS.to_vec() } else { vec![UriKind::Origin, UriKind::AbsOther] };
 		rep.extra("tcp_leg_requests", json!(singles.len() * hdrs.len() * uris.len()));
